@@ -10,6 +10,11 @@ CLAIMS = {
         text="Exploration. Every solid whose set bits fit a 2x2x2, 3x2x2 or 3x3x2 block (all three orientations) is meshed through the public API and checked for closedness, orientation, single vertex fans and winding number 1/0 at contained/excluded lattice points (thorough: all 786432 blocks; quick: every 13th); all 3x3 and 4x4 blocks for marching squares, all 4x4 bitmaps; plus random lattices, CSG trees and spacings through every API variant and random valid parameters of the other mesh generators.",
         note="Trusted: the harness topology/winding oracles (kit/geom.go), Go == as vertex identity (as the library documents). Exhaustiveness is over lattice classifications up to 3x3x2 neighbourhoods, which determine all triangles around any mesh vertex; larger-scale interactions are sampled, not enumerated.",
         design="3/C01"),
+    "C09": dict(
+        technique="model-based (stateful) property testing with rapid: operation histories against a reference face list / Go map",
+        text="Exploration. Random histories (<= 45 steps) of Add/Remove/AddMesh/Copy/DeepCopy/Translate/Scale/MapCoords (merging)/Transform/InvertNormals interleaved with queries that build the lazy vertex index at arbitrary moments, for 2D and 3D meshes, compared after every step with a brute-force model over the harness's own list of face pointers; histories over all six coordinate/edge map types of both packages against a Go map keyed by the same type, with hash-colliding and signed-zero keys; and outputs of the library's in-place editors (marching-cubes search, FlattenBase, EliminateEdges, decimation, dual contouring with repair) compared with a fresh mesh of their faces, also after further edits.",
+        note="Trusted: the reference model in harness/c09 (brute force over face lists), Go map semantics. Neighbors is only queried with non-degenerate faces (no agreed meaning otherwise). Hash collisions are produced black-box by floating-point absorption, which depends on the hash being a linear form in the coordinates.",
+        design="3/C09"),
 }
 
 NOT_YET = "check not built yet in this session (planned: see DESIGN.md section 3); nothing is claimed for it"
